@@ -357,6 +357,38 @@ def run(ctx) -> None:
                             cf = v
                 files.append(settings_io.file_outcome(Path(cf or "pyproject.toml")))
 
+            # ---- a law of the property on the implementation itself: the same options behave the same whether there is NO config
+            # file or an EMPTY one (`[tool.refurb]` absent) — in particular a malformed command line is refused in both
+            law_viol = 0
+            seen_argv: set[tuple] = set()
+            for (label, argv, raw), out0 in zip(list(cases), list(impl)):
+                if raw is not None or "--config-file" in argv or tuple(argv) in seen_argv:
+                    continue
+                seen_argv.add(tuple(argv))
+                (d / "pyproject.toml").write_bytes(b"")
+                out1 = impl_load(argv)
+                (d / "pyproject.toml").unlink()
+                res.bump("law:no-config-equals-empty-config")
+                if out0 != out1 and law_viol < 3:
+                    law_viol += 1
+                    kind = "accepted-without-config-refused-with-empty-config" if out0["r"] == "ok" and out1["r"] == "refurb" else "differs"
+                    res.violate(
+                        f"the command line {argv} is treated differently with no pyproject.toml ({out0['r']}) and with an empty pyproject.toml ({out1['r']}: {str(out1.get('msg'))[:80]})",
+                        {"kind": "no-config-vs-empty-config", "how": kind},
+                        {"argv": argv, "without_config": out0, "with_empty_config": out1,
+                         "how": "in an empty directory holding a.py (`x = 1`): python -m refurb <argv>; then `touch pyproject.toml` and run it again"},
+                    )
+            last = object()
+            for (label, argv, raw), out0 in zip(cases, impl):
+                if out0["r"] == "ok" and out0["v"].get("enable_all") and out0["v"].get("disable_all") and law_viol < 6:
+                    law_viol += 1
+                    res.violate(
+                        "contradictory switches (enable-all together with disable-all) are accepted instead of being refused with a refurb: error",
+                        {"kind": "malformed-accepted", "option": "enable_all+disable_all"},
+                        {"argv": argv, "config_bytes": None if raw is None else raw.decode("latin-1"), "settings": {k: out0["v"].get(k) for k in ("enable_all", "disable_all")},
+                         "required": "refurb: error and exit status 1", "how": "write config_bytes (if any) to pyproject.toml and a.py (`x = 1`) in an empty directory; run python -m refurb with argv"},
+                    )
+
         model: list[Any] = [None] * len(cases)
         if ctx.driver.available():
             reqs = [{"verb": "load_settings", "env_color": False, "args": argv, "file": fo} for (_, argv, _), fo in zip(cases, files)]
